@@ -61,6 +61,26 @@ theorem internal_windows_seen :
     ∃ f ∈ Generated.lockWindows, f.api = false ∧ f.entryHeld = true ∧ 0 < f.unlocks ∧ 0 < f.locks := by
   decide
 
+set_option maxRecDepth 100000 in
+/-- **library code never calls the lock-taking public API.**  No function of the compiled sources that runs under the
+global lock — the `*_lkd` workers, everything reached from them by direct calls (the timer work of
+coap_io_prepare_io_lkd: keepalive pings, retransmissions, session expiry; the receive path; …), the COAP_API wrappers
+between their coap_lock_lock and coap_lock_unlock — calls a function that takes the lock at its own entry level
+(a COAP_API wrapper, coap_new_context).  `lib_api_call_deadlocks_or_faults` below is why: such a call cannot succeed.
+(T1: extract/lockbal.py `held_functions`, recomputed from the tree on every run; calls through function pointers are
+not followed, the `func` arguments of the callback macros are application code.) -/
+theorem no_api_call_under_lock : ∀ f ∈ Generated.heldFns, f.apiCalls = 0 := by
+  have h : Generated.heldFns.all (fun f => f.apiCalls == 0) = true := by decide
+  exact fun f hf => by simpa using List.all_eq_true.mp h f hf
+
+set_option maxRecDepth 100000 in
+/-- the scan saw the construct: functions entered with the lock held that make calls under it (among them the timer
+work of the I/O loop), and functions that take the lock themselves -/
+theorem held_functions_seen :
+    (∃ f ∈ Generated.heldFns, f.name = "coap_io_prepare_io_lkd" ∧ f.entersHeld = true ∧ 0 < f.heldCalls) ∧
+    (∃ f ∈ Generated.heldFns, f.entersHeld = false ∧ 0 < f.heldCalls) := by
+  decide
+
 /-- the scan saw something -/
 theorem sites_nonempty : Generated.apiSites ≠ [] ∧ Generated.callbackSites ≠ [] ∧ Generated.buildCfgs ≠ [] := by
   decide
@@ -97,6 +117,47 @@ theorem mutual_exclusion (hw : ∀ t, wn [] (progs t) = true) (hr : Reach rc pro
   rw [h1] at h2
   exact Option.some.inj h2
 
+/-- **why library code must not call the public API itself** (the hypothesis `wn` makes about library code, checked on
+the tree by T1 `no_api_call_under_lock`): for a thread that is executing library code, coap_lock_lock_func() — the entry
+of every COAP_API wrapper — either blocks on the mutex the thread holds itself (`in_callback = 0`: self-deadlock, and with
+it every other thread's API call blocks for ever), or, nested under a lock-keeping callback, returns with
+`assert(global_lock.in_callback == global_lock.lock_count)` violated.  It never simply succeeds.
+(Seeded defect C13-8: the keepalive branch of coap_io_prepare_io_lkd called coap_session_send_ping().) -/
+theorem lib_api_call_deadlocks_or_faults (hw : ∀ t, wn [] (progs t) = true) (hr : Reach rc progs s) {t : Tid}
+    (hl : inLib s t) :
+    (lockFunc rc t s.g = none ∧ s.g.owner = some t) ∨ (∃ g', lockFunc rc t s.g = some g' ∧ g'.fault = true) := by
+  have hi := inv_reach hw hr
+  obtain ⟨ho, hp⟩ := lib_holds_mutex hw hr hl
+  have ht := hi.thr t
+  have hg := interp_good _ ht.ok
+  have htop : isApiTop (s.thr t).stack = true := by
+    unfold inLib at hl
+    match hst : (s.thr t).stack, hl with
+    | .api :: _, _ => rfl
+    | [], h => simp at h
+    | .cb _ :: _, h => simp at h
+  have gl := hg.1 htop
+  rw [← ht.view] at gl
+  have hrc : lockFunc rc t s.g = lockFunc false t s.g := by
+    cases rc
+    · rfl
+    · exact lockFunc_rc_eq hi.cons t
+  rw [hrc]
+  generalize s.g = g at ho hp gl ⊢
+  obtain ⟨owner, pid, inCb, cnt, fault⟩ := g
+  simp only at ho hp
+  subst ho hp
+  simp only [view, if_true, goodLib] at gl
+  obtain ⟨_, h0, h1⟩ := gl
+  by_cases hk : inCb = 0
+  · left
+    simp [lockFunc, hk]
+  · right
+    have hc : cnt = inCb := h1 hk
+    subst hc
+    have hne : ¬ cnt = (cnt + 1) % 4294967296 := by omega
+    simp [lockFunc, hk, G.assert, u32, hne]
+
 /-- a thread runs under the lock: it is in library code or in a callback invoked with the lock kept -/
 def underLock (s : Sys) (t : Tid) : Prop :=
   match (s.thr t).stack with
@@ -129,14 +190,26 @@ theorem critical_sections_exclusive (hw : ∀ t, wn [] (progs t) = true) (hr : R
   rw [h1] at h2
   exact Option.some.inj h2
 
-/-- whoever moves while the mutex is taken is its holder: every token of every other thread blocks -/
+/-- whoever changes `global_lock` while the mutex is taken is its holder: every token of every other thread blocks —
+except a repeated coap_startup(), which any thread may issue at any time and which leaves `global_lock` untouched -/
 theorem only_holder_moves (hw : ∀ t, wn [] (progs t) = true) (hr : Reach rc progs s) {t : Tid}
-    (he : enabled rc s t) : s.g.owner = none ∨ s.g.owner = some t := by
+    {tok : Tok} {rest : List Tok} {g' : G} (hp : (s.thr t).prog = tok :: rest) (hs : tokStep rc t tok s.g = some g') :
+    (tok = .startup ∧ g' = s.g) ∨ s.g.owner = none ∨ s.g.owner = some t := by
   have hi := inv_reach hw hr
-  obtain ⟨tok, rest, g', hp, hs⟩ := he
   have ht := hi.thr t
   rw [hp] at ht
-  exact (tok_sim hi.cons ht hs).2.2.1
+  rcases (tok_sim hi.cons ht hs).2.2 with h | h
+  · exact Or.inl h
+  · exact Or.inr h.1
+
+/-- **a repeated coap_startup() is ignored** (man page: "subsequent calls are ignored"): whoever issues it, whenever,
+`global_lock` and its mutex stay as they are — in particular while another thread is inside the library.  All theorems
+of this file quantify over programs that may contain such calls at every application-level point (`wn`). -/
+theorem repeated_startup_ignored (t : Tid) (g : G) : tokStep rc t .startup g = some g := rfl
+
+/-- … so it never blocks and never lets a second thread into the library -/
+theorem startup_enabled {t : Tid} {rest : List Tok} (hp : (s.thr t).prog = .startup :: rest) : enabled rc s t :=
+  ⟨_, _, _, hp, rfl⟩
 
 /-- **re-entry only by the owner from inside a callback**: if coap_lock_lock() succeeds while the mutex is taken, the
 caller is the holder, it is inside an application callback, and `in_callback > 0` -/
@@ -146,7 +219,8 @@ theorem reentry_only_by_owner_in_callback (hw : ∀ t, wn [] (progs t) = true) (
     u = t ∧ 0 < s.g.inCb ∧ ∃ k st, (s.thr t).stack = .cb k :: st := by
   have hi := inv_reach hw hr
   have hut : u = t := by
-    rcases only_holder_moves hw hr ⟨_, _, _, hp, hs⟩ with h | h
+    rcases only_holder_moves hw hr hp hs with h | h | h
+    · cases h.1
     · rw [h] at ho; cases ho
     · rw [h] at ho; exact (Option.some.inj ho).symm
   subst hut
@@ -174,7 +248,11 @@ theorem balanced (hw : ∀ t, wn [] (progs t) = true) (hr : Reach rc progs s) {t
   have hi := inv_reach hw hr
   have ht := hi.thr t
   rw [hp, hst] at ht
-  obtain ⟨c', ti', _, o'⟩ := tok_sim hi.cons ht hs
+  obtain ⟨c', ti', hoo⟩ := tok_sim hi.cons ht hs
+  have o' : g'.owner = none ∨ g'.owner = some t := by
+    rcases hoo with h | h
+    · cases h.1
+    · exact h.2
   have hv := ti'.view
   simp only [stackStep, List.tail_cons, interp] at hv
   have hno : g'.owner = none := by
@@ -416,5 +494,59 @@ example : ∃ s, Reach false exProgs s ∧ blocked false s 1 ∧ enabled false s
   · exact ⟨.lock, _, rfl, by decide⟩
   · exact ⟨.cbIn .ret, _, _, rfl, rfl⟩
   · rfl
+
+/-! ## repeated coap_startup() (seeded defect C13-7) and a library → API call (C13-8): witnesses -/
+
+/-- thread 0: an API call running an event handler that itself calls coap_startup(); thread 1: coap_startup() again, then
+an API call -/
+def startupProgs : Tid → List Tok
+  | 0 => [.lock, .cbIn .ret, .startup, .cbOut .ret, .unlock]
+  | 1 => [.startup, .lock, .unlock, .startup]
+  | _ => []
+
+example : ∀ t, wn [] (startupProgs t) = true := by
+  intro t
+  match t with
+  | 0 => decide
+  | 1 => decide
+  | _ + 2 => rfl
+
+/-- library code may not call coap_startup() through the grammar either (it is an application-level token) -/
+example : wn [] [.lock, .startup, .unlock] = false := by decide
+
+/-- non-vacuity: thread 0 is inside the library, thread 1 has issued its repeated coap_startup(): its API call is
+still refused, thread 0 goes on -/
+example : ∃ s, Reach false startupProgs s ∧ inLib s 0 ∧ (s.thr 1).prog = [.lock, .unlock, .startup] ∧
+    blocked false s 1 ∧ enabled false s 0 := by
+  refine ⟨_, Reach.step (Reach.step Reach.init (Step.mk (Sys.init startupProgs) 0 .lock _ _ rfl rfl))
+    (Step.mk _ 1 .startup _ _ rfl rfl), rfl, rfl, ?_, ?_⟩
+  · exact ⟨.lock, _, rfl, by decide⟩
+  · exact ⟨.cbIn .ret, _, _, rfl, rfl⟩
+
+/-- with the lock initialised in front of the `coap_started` guard (`Seeded.startupFunc`) the same schedule lets thread 1
+into the library while thread 0 is in it: after `lock₀; startup₁; lock₁` the mutex belongs to thread 1 and thread 0's
+unlock finds `pid` ≠ itself (`fault`) and releases a mutex it does not hold -/
+example : (do
+      let g ← Seeded.tokStep false 0 .lock G.init
+      let g ← Seeded.tokStep false 1 .startup g
+      let g ← Seeded.tokStep false 1 .lock g          -- must block; it does not
+      let g' ← Seeded.tokStep false 0 .unlock g
+      pure (g.owner, g'.fault)) = some (some 1, true) := by decide
+
+/-- the fixed order: the same three tokens leave thread 1 blocked -/
+example : (do
+      let g ← tokStep false 0 .lock G.init
+      let g ← tokStep false 1 .startup g
+      tokStep false 1 .lock g) = none := by decide
+
+/-- C13-8's shape, both variants: a thread in library code (`[api]`, in_callback = 0) calling a COAP_API function blocks
+on its own mutex -/
+example : (tokStep false 0 .lock G.init).bind (lockFunc false 0) = none ∧
+    (tokStep true 0 .lock G.init).bind (lockFunc true 0) = none := by decide
+
+/-- … nested under a lock-keeping callback (`[api, cb keep, api]`) the call returns, with the assertion violated -/
+example : ((runSeq (tokStep false) 0 [.lock, .cbIn .keep, .lock] G.init).getLast? = some (some ⟨true, 1, 1, true, false⟩)) ∧
+    (((tokStep false 0 .lock G.init).bind (tokStep false 0 (.cbIn .keep))).bind (tokStep false 0 .lock)).bind
+      (lockFunc false 0) = some ⟨some 0, 1, 1, 2, true⟩ := by decide
 
 end Coap.C13
